@@ -308,6 +308,9 @@ def stdObjOf (name : String) : String :=
 structure LoadedProg where
   files : List String
   inherits : List String
+  gen : Nat := 0                          -- which program block this is (a new number for every load of the name)
+  loadTime : Nat := 0                     -- `ob->load_time` of the object that owns it
+  linked : List (String × Nat) := []      -- `prog->inherit[i].prog`: name and block number of every inherited program
   deriving Repr, BEq, Inhabited
 
 structure World where
@@ -365,6 +368,24 @@ def checkInherits (w : World) (mtime : Nat) : List String → Decision
     else if treeNewer w mtime treeFuel inh then .stale "behind-inherited"
     else checkInherits w mtime rest
 
+/-- `inherited_program_outdated (prog)` for the program block number `g` of `name` that an heir is linked with: it is
+    no longer the program of the loaded object of that name (`find_object_by_name` fails or `ob->prog != prog`), one of
+    the files it was built from was modified after the object was loaded (`check_times (ob->load_time, file) == 0`),
+    or the same holds for a program it inherits.  Fuel as in `treeNewer`: out of fuel counts as outdated. -/
+def progOutdated (w : World) : Nat → String → Nat → Bool
+  | 0, _, _ => true
+  | fuel + 1, name, g =>
+    match w.progs.lookup name with
+    | none => true
+    | some lp =>
+      !(w.loaded.contains (objName w name)) || lp.gen != g ||
+        lp.files.any (fun f => checkTimes w lp.loadTime f == 0) ||
+        lp.linked.any (fun pg => progOutdated w fuel pg.1 pg.2)
+
+/-- the test at the head of `save_binary`: no inherited program is outdated -/
+def saveAllowed (w : World) (linked : List (String × Nat)) : Bool :=
+  !(linked.any (fun pg => progOutdated w treeFuel pg.1 pg.2))
+
 def magicId : String := Gen.C17.magicId
 def driverId : Nat := Gen.C17.driverId
 
@@ -394,52 +415,71 @@ structure ProgDecl where
 inductive Ev where
   | lb (name : String) (d : Decision)
   | sv (name : String) (t : Nat) (includes : List String)
+  | svSkipped (name : String)      -- `#pragma save_binary` in force, but save_binary() returned without writing
   | loadfail (name : String)
-  deriving Repr, BEq
+  deriving Repr, BEq, DecidableEq
 
 structure Sys where
   w : World := {}
   decls : List ProgDecl := []
-  vnow : Nat := 1000
+  vnow : Nat := 1000           -- clock of the files the driver writes
+  ctime : Nat := 0             -- `current_time`: the load time of objects loaded now
+  gens : Nat := 0              -- program blocks created so far
   evs : List Ev := []          -- newest first
   deriving Inhabited
 
 def Sys.decl (s : Sys) (name : String) : Option ProgDecl := s.decls.find? (·.name == name)
 
+/-- the end of a compile (`epilog`): with `#pragma save_binary` in force `save_binary` is called, which writes the binary
+    (current `config_id`, modification time = now) unless an inherited program is outdated -/
+def saveStep (s : Sys) (d : ProgDecl) (linked : List (String × Nat)) : Sys :=
+  if !d.save then s
+  else if !(saveAllowed s.w linked) then { s with evs := Ev.svSkipped d.name :: s.evs }
+  else
+    let bp := binPath s.w d.name
+    let b : BinFile := { magic := magicId, driverId := driverId, configId := s.w.configId,
+                         includes := d.includes, name := d.name, inherits := d.inherits }
+    { s with w := { s.w with files := (bp, s.vnow) :: s.w.files.filter (·.1 != bp),
+                             bins := (bp, b) :: s.w.bins.filter (·.1 != bp) },
+             vnow := s.vnow + 1, evs := Ev.sv d.name s.vnow d.includes :: s.evs }
+
+/-- the object exists now: a new program block, linked with the blocks of the inherited programs as loaded -/
+def enterProgram (s : Sys) (name : String) (d : ProgDecl) (linked : List (String × Nat)) : Sys :=
+  let lp : LoadedProg := { files := name :: d.includes, inherits := d.inherits, gen := s.gens + 1, loadTime := s.ctime,
+                           linked := linked }
+  { s with gens := s.gens + 1,
+           w := { s.w with loaded := objName s.w name :: s.w.loaded,
+                           progs := (name, lp) :: s.w.progs.filter (·.1 != name) } }
+
+/-- `prog->inherit[i].prog` for a program compiled or loaded now -/
+def linkNow (w : World) (inherits : List String) : List (String × Nat) :=
+  inherits.map (fun p => (p, ((w.progs.lookup p).map (·.gen)).getD 0))
+
 /-- `load_object (name)`: try the binary; otherwise compile, which aborts at the first inherit that is not loaded;
-    in both cases the inherit is loaded and everything starts again -/
-def loadObject (s : Sys) (name : String) : Nat → Sys × Bool
+    in both cases the inherit is loaded and everything starts again.  `useBin = false`: binaries are neither read nor
+    written (the harness's reference compile of the current sources). -/
+def loadObject (s : Sys) (name : String) (useBin : Bool := true) : Nat → Sys × Bool
   | 0 => (s, false)
   | fuel + 1 =>
     match s.w.mtime name, s.decl name with
     | some _, some d =>
-      let dec := loadBinary s.w name
-      let s := { s with evs := Ev.lb name dec :: s.evs }
-      let lp : LoadedProg := { files := name :: d.includes, inherits := d.inherits }
+      let dec := if useBin then loadBinary s.w name else .stale "disabled"
+      let s := if useBin then { s with evs := Ev.lb name dec :: s.evs } else s
       let retryWith (s : Sys) (inh : String) : Sys × Bool :=
-        let (s, ok) := loadObject s inh fuel
+        let (s, ok) := loadObject s inh useBin fuel
         if !ok then (s, false)
         else if s.w.loaded.contains (objName s.w name) then (s, true)
-        else loadObject s name fuel
+        else loadObject s name useBin fuel
       match dec with
-      | .use => ({ s with w := { s.w with loaded := objName s.w name :: s.w.loaded,
-                                          progs := (name, lp) :: s.w.progs.filter (·.1 != name) } }, true)
+      | .use => (enterProgram s name d (linkNow s.w d.inherits), true)
       | .needs inh => retryWith s inh
       | .stale _ =>
         match d.inherits.find? (fun i => !(s.w.loaded.contains (objName s.w i))) with
         | some inh => retryWith s inh
         | none =>
-          let s :=
-            if d.save then
-              let bp := binPath s.w name
-              let b : BinFile := { magic := magicId, driverId := driverId, configId := s.w.configId,
-                                   includes := d.includes, name := name, inherits := d.inherits }
-              { s with w := { s.w with files := (bp, s.vnow) :: s.w.files.filter (·.1 != bp),
-                                       bins := (bp, b) :: s.w.bins.filter (·.1 != bp) },
-                       vnow := s.vnow + 1, evs := Ev.sv name s.vnow d.includes :: s.evs }
-            else s
-          ({ s with w := { s.w with loaded := objName s.w name :: s.w.loaded,
-                                    progs := (name, lp) :: s.w.progs.filter (·.1 != name) } }, true)
+          let linked := linkNow s.w d.inherits
+          let s := if useBin then saveStep s d linked else s
+          (enterProgram s name d linked, true)
     | _, _ => ({ s with evs := Ev.loadfail name :: s.evs }, false)
 
 /-- the mudlib-relative name of the configured simul_efun file (leading slashes dropped, ".c" optional) -/
